@@ -5,6 +5,8 @@ Operators, applied inside a property's anchor functions:
   log      insertion of a `logger.debug(...)` / `pass` statement at a random statement boundary
   doc      a docstring is added / replaced
   noteq    `a is not None` <-> `not (a is None)`
+  commute  `a == b` / `a != b` -> `b == a` / `b != a` (operands without calls, awaits or walrus: evaluation order is irrelevant)
+  annot    `x = e` -> `x: object = e` for a local name (an annotated assignment executes identically)
 """
 from __future__ import annotations
 
@@ -86,7 +88,7 @@ def generate(prop: str, modules: dict[str, str], limit: int = 36, seed: int = 0)
             if len(out) >= limit:
                 break
             idx = next(i for i, n in enumerate(all_f) if n is fn)
-            for op in ("rename", "log", "log", "log", "log", "doc", "noteq", "log", "log"):
+            for op in ("rename", "log", "log", "log", "commute", "doc", "noteq", "annot", "log", "commute"):
                 t2 = copy.deepcopy(tree)
                 f2 = list(ast.walk(t2))[idx]
                 detail = ""
@@ -133,6 +135,29 @@ def generate(prop: str, modules: dict[str, str], limit: int = 36, seed: int = 0)
                             elif isinstance(val, list) and c in val:
                                 val[val.index(c)] = new
                     detail = f"`{ast.unparse(c)}` -> `{ast.unparse(new)}`"
+                elif op == "commute":
+                    def _pure(e: ast.expr) -> bool:
+                        return not any(isinstance(x, (ast.Call, ast.Await, ast.NamedExpr, ast.Yield, ast.YieldFrom)) for x in ast.walk(e))
+                    cands = [n for n in ast.walk(f2) if isinstance(n, ast.Compare) and len(n.ops) == 1 and isinstance(n.ops[0], (ast.Eq, ast.NotEq))
+                             and _pure(n.left) and _pure(n.comparators[0])]
+                    if not cands:
+                        continue
+                    c = rnd.choice(cands)
+                    before = ast.unparse(c)
+                    c.left, c.comparators = c.comparators[0], [c.left]
+                    detail = f"`{before}` -> `{ast.unparse(c)}`"
+                elif op == "annot":
+                    names = _locals(f2)
+                    cands = [(blk, i) for n in ast.walk(f2) for blk in [getattr(n, "body", None), getattr(n, "orelse", None), getattr(n, "finalbody", None)]
+                             if isinstance(blk, list) for i, st in enumerate(blk)
+                             if isinstance(st, ast.Assign) and len(st.targets) == 1 and isinstance(st.targets[0], ast.Name) and st.targets[0].id in names]
+                    # a name may be annotated only once per scope without upsetting type checkers; behaviour is identical either way
+                    if not cands:
+                        continue
+                    blk, i = rnd.choice(cands)
+                    st = blk[i]
+                    blk[i] = ast.copy_location(ast.AnnAssign(target=st.targets[0], annotation=ast.Name(id="object", ctx=ast.Load()), value=st.value, simple=1), st)
+                    detail = f"`{ast.unparse(st)[:60]}` annotated"
                 msrc = ast.unparse(ast.fix_missing_locations(t2))
                 try:
                     compile(msrc, modname, "exec")
